@@ -10,6 +10,7 @@ import (
 	"strconv"
 	"sync/atomic"
 	"time"
+	"verif/internal/yrun"
 
 	"github.com/traefik/yaegi/interp"
 )
@@ -191,7 +192,7 @@ func (e *engine) guard(fn func()) string {
 	e.over.Store(false)
 	e.limit.Store(e.i.VerifOps() + opBudget)
 	done := submit(fn)
-	last, at := e.i.VerifOps(), time.Now()
+	last, clock := e.i.VerifOps(), yrun.NewStallClock()
 	t := time.NewTicker(100 * time.Millisecond)
 	defer t.Stop()
 	for {
@@ -206,8 +207,9 @@ func (e *engine) guard(fn func()) string {
 			return ""
 		case <-t.C:
 			if n := e.i.VerifOps(); n != last {
-				last, at = n, time.Now()
-			} else if time.Since(at) > 20*time.Second {
+				last = n
+				clock.Reset()
+			} else if clock.Idle() > 20*time.Second {
 				wk = nil // the worker is lost with the hanging call
 				e.broken = true
 				return "hang"
@@ -218,7 +220,7 @@ func (e *engine) guard(fn func()) string {
 
 // settle waits until every goroutine started by an evaluation is gone.
 func (e *engine) settle() bool {
-	last, at := e.i.VerifOps(), time.Now()
+	last, clock := e.i.VerifOps(), yrun.NewStallClock()
 	for n := 0; runtime.NumGoroutine() > e.g0; n++ {
 		if n < 200 {
 			runtime.Gosched()
@@ -226,8 +228,9 @@ func (e *engine) settle() bool {
 			time.Sleep(100 * time.Microsecond)
 		}
 		if ops := e.i.VerifOps(); ops != last {
-			last, at = ops, time.Now()
-		} else if time.Since(at) > 20*time.Second {
+			last = ops
+			clock.Reset()
+		} else if n%256 == 0 && clock.Idle() > 20*time.Second {
 			return false
 		}
 	}
@@ -883,7 +886,7 @@ func (e *engine) cancelled(a *Action) *failure {
 	}
 	var err error
 	done := submit(func() { _, err = e.i.EvalWithContext(ctx, src) })
-	last, at := base, time.Now()
+	last, at, clock := base, time.Now(), yrun.NewStallClock()
 	tick := time.NewTicker(2 * time.Millisecond)
 	var escaped any
 	stuck := false
@@ -902,11 +905,12 @@ wait:
 			switch {
 			case n != last:
 				last, at = n, time.Now()
+				clock.Reset()
 			case n > base && ctx.Err() == nil && time.Since(at) > 10*time.Millisecond:
 				// the evaluation is blocked
 				trigger = "when-blocked"
 				cancel()
-			case time.Since(at) > 20*time.Second:
+			case time.Since(at) > 20*time.Second && clock.Idle() > 20*time.Second:
 				stuck = true
 				break wait
 			}
